@@ -139,6 +139,11 @@ def gen_text_case(r, name, identical_p=0.3):
     else:
         act_lines, muts = gl.mutate_lines(r, ref_lines)
     opts = gl.gen_options(r, ref_lines, act_lines) if r.chance(0.7) else {}
+    if 'space_and_change' in muts and r.chance(0.7):
+        opts['rstrip'] = True
+        opts['lstrip'] = True
+    if 'swap_and_change' in muts and r.chance(0.7):
+        opts['max_permutation_cases'] = r.randint(1, 3)
     ref_text = gl.join_text(r, ref_lines)
     act_text = gl.join_text(r, act_lines) if (muts or r.chance(0.3)) \
         else ref_text
@@ -351,6 +356,24 @@ def gen_c10(r, tier):
             elif r.chance(0.1):
                 op['read_fault'] = {'kind': 'read_eio'}
             ops.append(op)
+    if r.chance(0.35) and len(clients) >= 2:
+        # motif: a kind is switched on through one class, used, switched off
+        # through another class, and used again by the first
+        x, y = r.sample([c['id'] for c in clients], 2)
+        k = r.pick(KINDS)
+        a1 = gen_assert(r, clients, counter)
+        a1.update(client=x, kind=k if a1['op'] not in (
+            'assert_df', 'assert_df_file') or k != 'bin' else None,
+            recheck=True)
+        a2 = copy.deepcopy(a1)
+        if 'actual' in a2:
+            a2['actual'] = a2['actual'] + 'changed\n'
+        motif = [{'op': 'set_regen', 'client': x, 'kind': a1['kind'],
+                  'value': True}, a1,
+                 {'op': 'set_regen', 'client': y, 'kind': a1['kind'],
+                  'value': False}, a2]
+        pos = r.randrange(len(ops) + 1)
+        ops[pos:pos] = motif
     return {'config': {'clients': clients,
                        'tmp_dir_configured': r.chance(0.7)}, 'ops': ops}
 
